@@ -41,7 +41,7 @@ def run(ctx):
                 "integer, dyadic, AR(1), positive, constant data; jackknife export + import (idl passed) + naive error; bootstrap export with random tables of any shape and with the default "
                 "name-seeded table (re-derived independently), import with full-column-rank tables; distinct by (kind, idl kind, n, first samples)")
     ctx.trusted += ["hand-written model Obs/Resample.v tied to obs.py by correspondence", "numpy Generator.integers / md5 (default seeding) and scipy lstsq are oracles"]
-    ctx.assumptions += ["tolerance 2^-30 (x 2^12 for the lstsq-based bootstrap import)"]
+    ctx.assumptions += ["tolerance max(2^-30, 64 n |value| 2^-53 / rms(delta)) capped at 2^-12 for the jackknife round trip (binary64 conditioning of (n mean - x)/(n - 1)); 2^-30 (x 2^12 for the lstsq-based import) for the bootstrap"]
     ctx.copy_props()
 
     njack = 200 if quick else 2000
@@ -65,7 +65,11 @@ def run(ctx):
             ctx.fail("jackknife:raises", "jackknife export/import raised %r on a single-replica observable" % e,
                      {"obs": obsutil.obs_struct(o)})
             continue
-        tol = "tol30"
+        # conditioning of the transform in binary64: a jackknife sample (n mean - x_i)/(n - 1) carries an absolute error of order n |mean| eps,
+        # which the back-transformation multiplies by n - 1 again; relative to the fluctuations that is n |mean| eps / rms(delta)
+        dscale = float(np.sqrt(np.mean(np.asarray(o.deltas[name], dtype=float) ** 2)))
+        tolv = 2.0 ** -30 if dscale == 0.0 else max(2.0 ** -30, min(2.0 ** -12, 64.0 * n * max(abs(float(o.value)), 1.0) * 2.0 ** -53 / dscale))
+        tol = qlit(tolv)
         term = "(mkJC %s %s %s %s %s %s %s %s %s %s %s)" % (
             qlit(float(o.value)), qlit(float(o.r_values[name])), _ql(o.deltas[name]), _ql(jacks),
             qlit(float(imp.value)), qlit(float(imp.r_values[name])), _ql(imp.deltas[name]), qlit(naive),
